@@ -307,6 +307,11 @@ def _check_expr(expr: list, lo: int, hi: int, src: str, what: str, gaps: bool = 
             if r:
                 return r
         elif isinstance(e, T.TemplateStringToken):
+            # like a plain string token, the span is the text between the quotes
+            q = src[e.start - 1:e.start]
+            if q not in ("'", '"') or src[e.stop:e.stop + 1] != q:
+                return (f"text: {what} template string [{e.start},{e.stop}) = {src[e.start:e.stop][:30]!r} is not the text between "
+                        f"its quotes ({src[max(e.start - 1, 0):e.stop + 1][:32]!r})")
             parts = e.template
             r = _check_expr([p for p in parts], a, b, src, what + " template string")
             if r:
@@ -387,8 +392,9 @@ def oracle(out: tuple, src: str) -> str | None:
                 return "text: liquid tag delimiters"
             prev = t.start
             for st in t.statements:
-                if not (t.start <= st.start <= st.stop <= t.stop) or st.start < prev:
-                    return f"nesting: line statement {dump(st)[:3]} not in order inside [{t.start},{t.stop}]"
+                if not (t.start + 2 <= st.start <= st.stop <= t.stop - 2) or st.start < prev:
+                    return (f"nesting: line statement {dump(st)[:3]} not in order strictly between the delimiters of "
+                            f"[{t.start},{t.stop}] (it spans {src[st.start:st.stop][-12:]!r})")
                 prev = st.stop
                 if isinstance(st, T.TagToken):
                     if src[st.start:st.start + len(st.name)] != st.name:
@@ -509,8 +515,27 @@ def location_check(e: Any, src: str) -> str | None:
     import re
 
     tok = getattr(e, "token", None)
+    # "..., found KIND": the error points at the token it describes, not at its neighbour
+    first = str(e.args[0]) if getattr(e, "args", None) else ""
+    m0 = re.search(r"found ([A-Z_]+)$", first.split("\n")[0])
+    kind = getattr(getattr(tok, "type_", None), "name", None)
+    if m0 and kind and type(tok).__name__ == "Token" and kind != m0.group(1):
+        return (f"error-location: the message says 'found {m0.group(1)}' but the error carries the {kind} token"
+                + (f" at {tok.start}" if tok.start >= 0 else " (no position)"))
     if tok is None or tok.start < 0 or getattr(tok, "source", None) != src:
         return None
+    # "... at index N" (escape sequences in string literals): N is an offset into the source, at the escape
+    m1 = re.search(r" at index (\d+)$", first.split("\n")[0])
+    if m1 and "\\" not in src[max(int(m1.group(1)) - 1, 0):int(m1.group(1)) + 1]:     # the backslash or the letter after it
+        n1 = int(m1.group(1))
+        return (f"escape-index: the message says 'at index {n1}' but source[{n1}] is {src[n1:n1 + 1]!r}, not in the "
+                f"escape sequence (at {[i for i in range(len(src)) if src.startswith(chr(92) + 'u', i)][-1:]})")
+    # a lexer error token spans the text it holds, inside the source
+    if type(tok).__name__ == "ErrorToken":
+        if not (0 <= tok.start <= tok.stop <= len(src)):
+            return f"error-position: error token [{tok.start}:{tok.stop}) outside the source ({len(src)} characters)"
+        if src[tok.start:tok.stop] != tok.value:
+            return f"error-position: error token [{tok.start}:{tok.stop}) spans {src[tok.start:tok.stop][:20]!r}, its value is {tok.value[:20]!r}"
     exp = expected_location(src, tok.start)
     try:
         ctx = e.context()
@@ -752,7 +777,6 @@ class KeptErrors:
             else:
                 tok = getattr(err, "token", None)
                 if tok is not None and getattr(tok, "start", -1) >= 0 and getattr(tok, "source", None) == src:
-                    # (start only: the stop of a lexer ErrorToken is start + the length of the text scanned BEFORE start)
                     if not (0 <= tok.start <= len(src)):
                         fail = f"error-kept: kept token starts at {tok.start}, outside its source ({len(src)})"
                     else:
